@@ -111,7 +111,7 @@ prop('C04', COMMON +
      ['strategy chosen atomically; waits only when the queue is owned or parked (TR-defer)', 'blocked caller cannot miss its wake-up (CV1, CV2, QD-waiters)', 'caller runs the queue itself when woken and it is claimable (ORD-C04-steal)',
       'own result, after completion (ORD-C04-result, UA-wait)', 'no lock-order cycle, no blocking/foreign code under an internal lock (LO, BL)', 'caller-side execution holds the token (TOK-exec)', 'caller-side parking: wake latched while polling, consumed before parking, unpark + re-check loop (PARK-wake, ORD-C06-drain)'],
      ['termination of the operations ahead; OS fairness', '"from inside a job of a different Desync" is derived from BL (no internal lock is held while a job runs)'],
-     [(RP.tr_defer, None, ['sync']), (RL.cv, None), (RQ.qd_wake_blocked, None), (RQ.qd_run, None), (RP.tr_roles, None), (RP.tr_dead, None), (RO.free_delegates, None, ['sync|']), (RO.c04_steal, None), (RO.c04_result, None), (RU.ua_wait, None), (RL.lo, None), (RL.bl, None), (RL.lock_classes, None), (RP.tok_exec, None), (RP.tok_resched, None),
+     [(RP.tr_defer, None, ['sync']), (RL.cv, None), (RQ.qd_wake_blocked, None), (RQ.qd_run, None), (RP.tr_roles, None), (RP.tr_dead, None), (RO.free_delegates, None, ['sync|']), (RG.c15_reap, None), (RO.c04_steal, None), (RO.c04_result, None), (RU.ua_wait, None), (RL.lo, None), (RL.bl, None), (RL.lock_classes, None), (RP.tok_exec, None), (RP.tok_resched, None),
       (RP.park_wake, None, ['WakeThread', 'run_one_job_now']), (RO.c06_drain, None, ['run_one_job_now'])])
 
 prop('C05', COMMON +
@@ -187,7 +187,7 @@ prop('C14', COMMON +
      'every unsafe operation is of an audited kind (UA-sites). Thorough tier adds compile-fail witnesses with compiling twins (W).',
      ['sync waits for its erased job (UA-wait)', 'pointer confined to jobs of the own queue (UA-confine)', 'the future built from &mut T in future_sync is destroyed before the slot is released (UA-borrow)', 'freed once, in the final job, ordered last (UA-free, ORD-C05-drop, TR-immediate)', 'Send/\'static bounds (UA-bounds, W)', 'unsafe sites enumerated (UA-sites)', 'a queue whose runner unwound may still hold lifetime-erased jobs pointing into the unwound frame: it is marked Panicked (TOK-guard) and never run again (TR-dead, ORD-C15-refuse)'],
      ['memory safety of executions as such', 'soundness of `Desync: Sync` rests on exclusion and on drop being ordered last: the C01/C02 rules are run as part of this check, their undecided clauses remain undecided here'],
-     [(RU.ua_wait, None), (RU.ua_confine, None), (RU.ua_borrow, None), (RU.ua_free, None), (RO.c05_drop, None), (RU.ua_bounds, None), (RU.ua_sites, None), (RP.tr_dead, None), (RG.c15_refuse, None), (RG.tok_guard, None)] + G_EXCL + G_ORDER)
+     [(RU.ua_wait, None), (RU.ua_confine, None), (RU.ua_borrow, None), (RU.ua_free, None), (RO.c05_drop, None), (RO.c08, None, ['drop-order']), (RU.ua_bounds, None), (RU.ua_sites, None), (RP.tr_dead, None), (RG.c15_refuse, None), (RG.tok_guard, None)] + G_EXCL + G_ORDER)
 
 prop('C15', COMMON +
      'Decided: an ActiveQueue guard is live in some frame of every call path to every execution site, so unwinding marks the queue (TOK-guard); its Drop marks only while panicking (AQ-drop); nothing leaves Panicked (TR-dead); '
